@@ -11,12 +11,16 @@ Record row4 := Row4 { r_a : vec3 Q; r_b : vec3 Q; r_c : vec3 Q; r_d : vec3 Q }.
 Inductive case :=
 (* surface_normals(normalize=False / True), surface_area on a stack *)
 | CNormals (ts : list (tri Q)) (raw : list (list fl)) (unit : list (list fl)) (areas : list fl)
-| CBary (ts : list (tri Q)) (ps : list (vec3 Q)) (w : list (list fl))
+(* isint: the arrays were int64 (a zero-area triangle then gives a NaN row, see bary_intarray) *)
+| CBary (isint : bool) (ts : list (tri Q)) (ps : list (vec3 Q)) (w : list (list fl))
 (* exact inputs: decisions must agree exactly *)
 | CContains (rows : list row4) (obs : list bool)
 | CSameSide (rows : list row4) (obs : list bool)
 (* sample with supplied draws; exact = all arithmetic up to the face decision is exact in binary64 *)
-| CSample (exact : bool) (ts : list (tri Q)) (weights : option (list Q)) (us : list Q) (abs : list (Q * Q))
+(* dec: per draw, whether its face decision is judged (every draw when the arithmetic up to the decision is exact in
+   binary64; otherwise only draws whose u*T is 1e-8 T away from every cumulative weight -- decided by the harness, which
+   also counts the undecided ones in the evidence) *)
+| CSample (dec : list bool) (ts : list (tri Q)) (weights : option (list Q)) (us : list Q) (abs : list (Q * Q))
           (obs : result (list (list fl) * list nat))
 | CQuads (qs : list quad) (tris : list face) (mapping : list (Z * Z))
 | CEdges (nz : bool) (fs : list face) (edges : list (Z * Z))
@@ -55,15 +59,14 @@ Definition opt_vec_close (m : option (vec3 Q)) (o : list fl) : bool :=
 Definition face_eqb (a b : face) : bool := (f0 a =? f0 b)%Z && (f1 a =? f1 b)%Z && (f2 a =? f2 b)%Z.
 Definition pair_eqb (a b : Z * Z) : bool := (fst a =? fst b)%Z && (snd a =? snd b)%Z.
 
-(* face decisions are compared only when u * total is away (relative to the total) from every cumulative weight,
-   unless exact *)
-Definition band : Q := 1 # 100000000.
-Definition away (ws : list Q) (u : Q) : bool :=
-  let T := total_weight QOps ws in
-  let x := u * T in
-  forallb (fun c => negb (Qle_bool (Qabs (x - c)) (band * Qabs T))) (cumsum QOps ws).
-Definition sample_decided (exact : bool) (ts : list (tri Q)) (weights : option (list Q)) (us : list Q) : bool :=
-  exact || (let ws := match weights with Some w => w | None => surface_areas QOps ts end in forallb (away ws) us).
+(* row-by-row agreement of a sample result; an undecided draw is not judged (neither its face nor its point) *)
+Fixpoint rows_agree (mag : Q) (dec : list bool) (l : list (vec3 Q * nat)) (pts : list (list fl)) (fis : list nat) : bool :=
+  match dec, l, pts, fis with
+  | [], [], [], [] => true
+  | d :: dr, (p, i) :: lr, o :: ptr, f :: fr =>
+      (negb d || (Nat.eqb i f && vec_close_rel mag p o)) && rows_agree mag dr lr ptr fr
+  | _, _, _, _ => false
+  end.
 
 Definition check_case (c : case) : bool :=
   match c with
@@ -71,17 +74,18 @@ Definition check_case (c : case) : bool :=
       normals_close ts raw &&
       all2 opt_vec_close (surface_normals_unit QOps ts) unit &&
       areas_close ts areas
-  | CBary ts ps w => vecs_close (bary_pairs QOps ts ps) w
+  | CBary isint ts ps w =>
+      if isint then all2 opt_vec_close (bary_pairs_intarray QOps ts ps) w else vecs_close (bary_pairs QOps ts ps) w
   | CContains rows obs =>
       bool_list_eqb (map (fun r => tri_contains QOps (r_a r) (r_b r) (r_c r) (r_d r)) rows) obs
   | CSameSide rows obs =>
       bool_list_eqb (map (fun r => same_side QOps (r_a r) (r_b r) (r_c r) (r_d r)) rows) obs
-  | CSample exact ts weights us abs obs =>
-      negb (sample_decided exact ts weights us) ||
+  | CSample dec ts weights us abs obs =>
       match sample QOps ts weights us abs, obs with
-      | Ok l, Ok (pts, fis) => nat_list_eqb (map snd l) fis && vecs_close_rel (tris_pmag ts) (map fst l) pts
+      | Ok l, Ok (pts, fis) => rows_agree (tris_pmag ts) dec l pts fis
       | Raise e, Raise e' => exn_eqb e e'
-      | _, _ => false
+      (* success on one side only is judged when every draw is decided *)
+      | _, _ => negb (forallb (fun d => d) dec)
       end
   | CQuads qs tris mapping =>
       all2 face_eqb (quads_to_tris qs) tris && all2 pair_eqb (quads_mapping qs) mapping
